@@ -337,6 +337,8 @@ avx2_window!(c13_avx2_win40_at29_multi, 40, 29, 4, MULTI_F);
 avx2_window!(c13_avx2_win8_at2, 8, 2, 6, ASCII_F);
 avx2_window!(c13_avx2_win32_at24, 32, 24, 8, ASCII_F);
 avx2_window!(c13_avx2_win40_at20_w16, 40, 20, 16, ASCII_F);
+avx2_window!(c13_avx2_win66_at28, 66, 28, 8, ASCII_F);
+avx2_window!(c13_avx2_win98_at58, 98, 58, 8, ASCII_F);
 avx2_window!(c13_avx2_full33, 33, 0, 33, ASCII_F);
 avx2_window!(c13_avx2_full66, 66, 0, 66, ASCII_F);
 
